@@ -69,6 +69,7 @@ pub fn run(dir: PathBuf, clock: Option<u64>, gate_gc: bool, http: bool) {
     let mut out = stdout.lock();
     println!("{}", ready);
     let mut nth: u64 = 0;
+    let mut follow_conn: Option<std::os::unix::net::UnixStream> = None;
     for line in stdin.lock().lines() {
         let line = line.unwrap();
         if line.trim().is_empty() {
@@ -78,6 +79,53 @@ pub fn run(dir: PathBuf, clock: Option<u64>, gate_gc: bool, http: bool) {
         let op = req["op"].as_str().unwrap_or("");
         // a panic inside the code under test is an observation, not a harness failure
         nth += 1;
+        if http && op == "follow_open" {
+            // a streaming request that stays open while the parent goes on appending
+            use std::io::Write as _;
+            let target = req["target"].as_str().unwrap_or("/");
+            let mut resp = json!({"status": -1});
+            if let Ok(mut c) = std::os::unix::net::UnixStream::connect(&sock) {
+                let _ = c.write_all(format!("GET {target} HTTP/1.1\r\nHost: localhost\r\n\r\n").as_bytes());
+                let _ = c.set_read_timeout(Some(Duration::from_millis(300)));
+                follow_conn = Some(c);
+                resp = json!({"status": 0});
+            }
+            writeln!(out, "{}", resp).unwrap();
+            out.flush().unwrap();
+            continue;
+        }
+        if http && op == "follow_collect" {
+            use std::io::Read as _;
+            let mut buf = vec![];
+            if let Some(mut c) = follow_conn.take() {
+                let wait = Duration::from_millis(req["wait_ms"].as_u64().unwrap_or(150));
+                let _ = c.set_read_timeout(Some(wait));
+                let mut chunk = [0u8; 65536];
+                loop {
+                    match c.read(&mut chunk) {
+                        Ok(0) => break,
+                        Ok(n) => buf.extend_from_slice(&chunk[..n]),
+                        Err(_) => break, // idle for `wait`
+                    }
+                }
+            }
+            let text = String::from_utf8_lossy(&buf).to_string();
+            let status = text.split(' ').nth(1).and_then(|c| c.parse::<i64>().ok()).unwrap_or(-1);
+            let mut frames = vec![];
+            if let Some(p) = text.find("\r\n\r\n") {
+                for l in text[p + 4..].lines() {
+                    let l = l.trim();
+                    if l.starts_with('{') {
+                        if let Ok(v) = serde_json::from_str::<Value>(l) {
+                            frames.push(v);
+                        }
+                    }
+                }
+            }
+            writeln!(out, "{}", json!({"status": status, "frames": frames})).unwrap();
+            out.flush().unwrap();
+            continue;
+        }
         let res = std::panic::catch_unwind(std::panic::AssertUnwindSafe(|| {
             if http {
                 if op == "bad" {
